@@ -1296,7 +1296,7 @@ pub fn run(rng: &mut Rng, tier: &str, out: &str) -> Report {
         use automerge::transaction::{CommitOptions, Transactable};
         let n_bulky = if thorough { 24 } else { 6 };
         for bi in 0..n_bulky {
-            let mut doc = automerge::AutoCommit::new().with_actor(crate::gen::actor(rng, bi));
+            let mut doc = automerge::AutoCommit::new().with_actor(crate::gen::actor(rng, bi % 16));
             let mut log: Vec<String> = vec![];
             let n_changes = rng.range(6, 14) as usize;
             for k in 0..n_changes {
